@@ -14,9 +14,16 @@ from .exec_metrics import read_rows  # noqa: E402
 ROOT = os.path.dirname(os.path.dirname(os.path.abspath(__file__)))
 
 
-def one_run(case, prefix, ncache, consume):
+def one_run(case, prefix, ncache, consume, midcache=0):
     out = {"ncache": ncache, "consume": consume, "exc": "ok", "visits": [], "files": [], "consumed": []}
-    t = proj.build_tensor(case["a"], ["M", "K"], shape=[case["shape"], case["shape"]], name="A")
+    w = case.get("tuplew", 0)
+    if w:
+        # the outer rank holds the tuple coordinates (c // w, c % w) (a flattened rank), declared to the tracer with associateShape: rows name the flattened coordinate c
+        sub = [proj.build_fiber(p, shape=[case["shape"]]) for _, p in case["a"]["e"]]
+        root = Fiber([(c // w, c % w) for c, _ in case["a"]["e"]], sub)
+        t = Tensor.fromFiber(rank_ids=["M", "K"], fiber=root, name="A")
+    else:
+        t = proj.build_tensor(case["a"], ["M", "K"], shape=[case["shape"], case["shape"]], name="A")
     if case["omode"] == "fmtU":
         t.setFormat("M", "U")
     a_m = t.getRoot()
@@ -25,6 +32,8 @@ def one_run(case, prefix, ncache, consume):
     files = {}
     try:
         Metrics.beginCollect(prefix)
+        if w:
+            Metrics.associateShape("M", (case["shape"] // w + 1, w))
         if ncache:
             Metrics.setNumCachedUses(ncache)
         for r in ("M", "K"):
@@ -36,12 +45,16 @@ def one_run(case, prefix, ncache, consume):
         it = {"occ": lambda: a_m.iterOccupancy(), "default": lambda: a_m, "fmtU": lambda: a_m, "range": lambda: a_m.iterRange(lo, hi), "active": lambda: a_m.iterActive(),
               "shape": lambda: a_m.iterShape(), "rangeshape": lambda: a_m.iterRangeShape(lo, hi, st), "activeshape": lambda: a_m.iterActiveShape(),
               "shaperef": lambda: a_m.iterShapeRef()}[case["omode"]]()
+        nvis = 0
         for m, a_k in it:
             inner = []
             if isinstance(a_k, Fiber):
                 for k, v in a_k:
                     inner.append(int(k))
-            out["visits"].append([int(m), inner])
+            out["visits"].append([int(m[0] * w + m[1]) if isinstance(m, tuple) else int(m), inner])
+            nvis += 1
+            if midcache and nvis == 2:
+                Metrics.setNumCachedUses(2)           # the flush threshold lowered in the middle of the collection
         consumed = {}
         if consume:
             for (r, ty) in files:
@@ -72,7 +85,7 @@ def execute(case):
     wdir = tempfile.mkdtemp(prefix="mo", dir=base if os.path.isdir(base) else None)
     out = {k: v for k, v in case.items()}
     try:
-        out["runs"] = [one_run(case, os.path.join(wdir, f"r{k}"), nc, cons) for k, (nc, cons) in enumerate([(0, 0), (2, 0), (0, 1)])]
+        out["runs"] = [one_run(case, os.path.join(wdir, f"r{k}"), nc, cons, mid) for k, (nc, cons, mid) in enumerate([(0, 0, 0), (2, 0, 0), (0, 1, 0), (0, 0, 1), (5, 0, 1)])]
     finally:
         shutil.rmtree(wdir, ignore_errors=True)
     return out
